@@ -161,12 +161,29 @@ func runC09(c *Ctx) {
 		}
 		return false
 	}
+	// the notebook writer: the function under saveToPersonalDatabase (itself
+	// included) that hands the marshalled notebook to the atomic replace
+	var nbWriter *ssa.Function
+	if save := c.P.Func("internal/cli", "", "saveToPersonalDatabase"); save != nil {
+		for _, fn := range reachClosure(c, []*ssa.Function{save}) {
+			if pk := c.P.PkgOfFunc(fn); pk == nil || !strings.HasSuffix(pk.PkgPath, "internal/cli") {
+				continue
+			}
+			ssau.ForEachInstr(fn, false, func(in ssa.Instruction) {
+				if call, ok := in.(*ssa.Call); ok && nbWriter == nil {
+					if cal := call.Common().StaticCallee(); cal != nil && isRenamer(cal) {
+						nbWriter = fn
+					}
+				}
+			})
+		}
+	}
 	writers := []struct {
 		key  string
 		fn   *ssa.Function
 		mars string
 	}{
-		{"cli.writePersonalDatabase", c.P.Func("internal/cli", "", "writePersonalDatabase"), yamlPkg + ".Marshal"},
+		{"cli.writePersonalDatabase", nbWriter, yamlPkg + ".Marshal"},
 		{"history.(*SearchHistory).Save", c.P.Func("internal/history", "SearchHistory", "Save"), "encoding/json.Marshal"},
 	}
 	for _, w := range writers {
@@ -249,10 +266,23 @@ func runC09(c *Ctx) {
 
 	// ---------------- O-3
 	save := c.P.Func("internal/cli", "", "saveToPersonalDatabase")
-	wpd := c.P.Func("internal/cli", "", "writePersonalDatabase")
+	wpd := nbWriter
 	if r.Anchor("O-3", "cli.saveToPersonalDatabase", save != nil) && wpd != nil {
 		n := 0
-		for _, call := range callsTo(save, ssau.FuncName(wpd)) {
+		var calls []*ssa.Call
+		if wpd == save {
+			// the write is written out in the save function itself
+			ssau.ForEachInstr(save, false, func(in ssa.Instruction) {
+				if call, ok := in.(*ssa.Call); ok {
+					if cal := call.Common().StaticCallee(); cal != nil && isRenamer(cal) {
+						calls = append(calls, call)
+					}
+				}
+			})
+		} else {
+			calls = callsTo(save, ssau.FuncName(wpd))
+		}
+		for _, call := range calls {
 			n++
 			ok, why := failurePropagates(call)
 			r.Check(ok, "O-3", fmt.Sprintf("cli.saveToPersonalDatabase#write-%d-error-propagates", n), c.P.Pos(call.Pos()), "returns the write error", "a failed notebook write is swallowed: "+why)
@@ -371,7 +401,7 @@ func c09Protocol(c *Ctx, fn *ssa.Function, ren *ssa.Call) {
 	tmpFile := resultValue(temp, 0)
 	onTemp := func(call *ssa.Call) bool {
 		a := call.Common().Args
-		return len(a) > 0 && tmpFile != nil && a[0] == tmpFile
+		return len(a) > 0 && tmpFile != nil && ssau.ResolveCell(a[0]) == tmpFile
 	}
 	// rename source is the temp's name
 	srcOK := false
@@ -445,8 +475,8 @@ func c09Protocol(c *Ctx, fn *ssa.Function, ren *ssa.Call) {
 		r.Bad("O-2", fk+"#success-only-after-rename", pos, "the error of os.Rename is discarded")
 	default:
 		direct := false
-		for _, ref := range *ev.Referrers() {
-			if ret, ok := ref.(*ssa.Return); ok && ret.Results[ei] == ev {
+		for _, ret := range ssau.ReturnsOf(fn) {
+			if ei < len(ret.Results) && ssau.ResultValue(ret, ei) == ev {
 				direct = true
 			}
 		}
@@ -466,7 +496,7 @@ func c09Protocol(c *Ctx, fn *ssa.Function, ren *ssa.Call) {
 			}
 			n := 0
 			for _, ret := range ssau.ReturnsOf(fn) {
-				if ssau.IsNilConst(ssau.ResultValue(ret, ei)) || (direct && ret.Results[ei] == ev) {
+				if ssau.IsNilConst(ssau.ResultValue(ret, ei)) || (direct && ssau.ResultValue(ret, ei) == ev) {
 					n++
 				}
 			}
